@@ -6,7 +6,7 @@ use crate::rule;
 use rotala::exchange::jura_v1::{Fill, Order, VerifOrderKind, VerifOrderView, VerifSnapshot};
 use rotala::input::penelope::PenelopeQuoteByDate;
 use serde::{Deserialize, Serialize};
-use std::collections::BTreeMap;
+use std::collections::{BTreeMap, HashSet};
 
 #[derive(Clone, Copy, Debug, PartialEq, Serialize, Deserialize)]
 pub enum JKind {
@@ -429,14 +429,16 @@ impl JTracker {
         // ==== B. what the SUT did (structure only) ===================================================
         let pre_ids: Vec<u64> = pre.book.iter().map(|o| o.order_id).collect();
         let post_ids: Vec<u64> = post.book.iter().map(|o| o.order_id).collect();
-        let filled_ids: Vec<u64> = fills.iter().map(|f| f.oid).collect();
-        let gone: Vec<u64> = pre_ids.iter().copied().filter(|id| !post_ids.contains(id)).collect();
+        let pre_id_set: HashSet<u64> = pre_ids.iter().copied().collect();
+        let post_id_set: HashSet<u64> = post_ids.iter().copied().collect();
+        let filled_ids: HashSet<u64> = fills.iter().map(|f| f.oid).collect();
+        let gone: Vec<u64> = pre_ids.iter().copied().filter(|id| !post_id_set.contains(id)).collect();
         let tail_start = post.book.len().saturating_sub(n_adm);
         let tail = &post.book[tail_start..];
-        let tail_matches = tail.len() == n_adm && tail.iter().zip(admitted_views.iter()).all(|(b, a)| &b.order == a) && tail.iter().all(|b| !pre_ids.contains(&b.order_id));
+        let tail_matches = tail.len() == n_adm && tail.iter().zip(admitted_views.iter()).all(|(b, a)| &b.order == a) && tail.iter().all(|b| !pre_id_set.contains(&b.order_id));
         // new entries that are not the batch: trigger children
         let children: Vec<&rotala::exchange::jura_v1::VerifRestingOrder> =
-            post.book[..if tail_matches { tail_start } else { post.book.len() }].iter().filter(|o| !pre_ids.contains(&o.order_id)).collect();
+            post.book[..if tail_matches { tail_start } else { post.book.len() }].iter().filter(|o| !pre_id_set.contains(&o.order_id)).collect();
         let mut obs_fired: Vec<u64> = Vec::new();
         for id in &gone {
             let Some(&i) = self.by_id.get(id) else { continue };
@@ -469,7 +471,7 @@ impl JTracker {
             }
         }
         for id in &filled_ids {
-            if post_ids.contains(id) {
+            if post_id_set.contains(id) {
                 ctx.fail("C03", "filled-stays", "tick", format!("order id {id} filled on this tick but is still in the book"));
             }
         }
@@ -565,7 +567,8 @@ impl JTracker {
             "{} triggers left the book but {} children appeared", obs_fired.len(), children.len()
         );
         // pair the k-th fired trigger (book order) with the k-th child
-        let fired_in_book_order: Vec<u64> = pre_ids.iter().copied().filter(|id| obs_fired.contains(id)).collect();
+        let fired_set: HashSet<u64> = obs_fired.iter().copied().collect();
+        let fired_in_book_order: Vec<u64> = pre_ids.iter().copied().filter(|id| fired_set.contains(id)).collect();
         for (k, pid) in fired_in_book_order.iter().enumerate() {
             let Some(&pi) = self.by_id.get(pid) else { continue };
             self.recs[pi].status = St::Fired;
@@ -625,7 +628,7 @@ impl JTracker {
             };
             match status {
                 St::Resting => {
-                    if !pre_ids.contains(&f.oid) {
+                    if !pre_id_set.contains(&f.oid) {
                         ctx.fail("C01", "same-tick-fill", sig, format!("order id {} was not in the book when the tick began but filled: {}", f.oid, fmt_fill(f)));
                     }
                 }
